@@ -449,6 +449,11 @@ class Report:
         self.assumptions: list[str] = []
         self.findings = [f for f in load_findings().get("findings", [])
             if f.get("property") == pid]
+        # which statements of the anchored functions does this run execute?
+        self._mcov = None
+        if pid in ANCHORED and os.environ.get("VERIF_NO_COVERAGE") != "1":
+            self._mcov = MultiCoverage(ANCHORED[pid])
+            self._mcov.start()
         # replays of earlier runs are stale
         d = REPLAYS / pid
         if d.exists() and "--replay" not in sys.argv:
@@ -527,6 +532,8 @@ class Report:
         return res
 
     def finish(self, level_trusted: list[str]) -> int:
+        if self._mcov is not None and "anchored_code_lines_executed_by_this_run" not in self.coverage:
+            self.coverage["anchored_code_lines_executed_by_this_run"] = self._mcov.stop()
         cov = self.coverage
         cov.setdefault("trusted_base", level_trusted)
         ev = {
@@ -565,6 +572,81 @@ TRUSTED = [
 # --------------------------------------------------------------------------
 # how much of the anchored code did the correspondence run execute?
 
+ANCHORED = {
+ "C01": {"transforge/type.py": ["TypeOperator.subtype", "TypeInstance.match", "Type.is_subtype"]},
+ "C02": {"transforge/type.py": ["Type.apply", "TypeInstance.unify", "TypeOperator.subtype"]},
+ "C04": {"transforge/expr.py": ["Application.__init__", "Expr.fix", "Operator.instance", "Operation.__init__", "Source.__init__"],
+         "transforge/lang.py": ["Language.parse_expr", "Language.parse_type"],
+         "transforge/type.py": ["Type.apply", "TypeInstance.unify", "TypeVariable.bind", "TypeInstance.fix"]},
+ "C05": {"transforge/type.py": ["TypeVariable.above", "TypeVariable.below", "TypeVariable.bind", "TypeInstance.fix", "TypeInstance.unify"]},
+ "C06": {"transforge/type.py": ["EliminationConstraint.minimize", "EliminationConstraint.fulfill", "TypeInstance.match", "with_parameters"]},
+ "C07": {"transforge/graph.py": ["TransformationGraph.add_expr", "TransformationGraph.add_type"]},
+ "C08": {"transforge/graph.py": ["TransformationGraph.add_expr", "TransformationGraph.add_from"]},
+ "C09": {"transforge/graph.py": ["TransformationGraph.add_from"]},
+ "C10": {"transforge/lang.py": ["Language.expand_canon", "Language.successors"],
+         "transforge/type.py": ["TypeOperation.successors", "TypeOperator.floor", "TypeOperator.ceiling"],
+         "transforge/graph.py": ["TransformationGraph.add_taxonomy", "TransformationGraph.add_subtypes", "TransformationGraph.add_supertypes"]},
+ "C11": {"transforge/query.py": ["TransformationQuery.assign_variables", "TransformationQuery.chronology", "TransformationQuery.types",
+                                 "TransformationQuery.operators", "TransformationQuery.output_nodes", "TransformationQuery.input_nodes",
+                                 "TransformationQuery.sparql", "TransformationQuery.from_list"]},
+ "C12": {"transforge/graph.py": ["TransformationGraph.add_workflow"],
+         "transforge/workflow.py": ["Workflow.source_types", "Workflow.target"]},
+ "C13": {"transforge/lang.py": ["Language.parse_expr", "tokenize", "strip_comments"], "transforge/expr.py": ["Expr.match"]},
+ "C14": {"transforge/lang.py": ["Language.uri", "Language.parse_type_uri", "Language.parse_type", "Language.add"],
+         "transforge/type.py": ["TypeInstance.text"]},
+ "C15": {"transforge/expr.py": ["Expr.primitive", "Expr.normalize", "Expr.copy", "Operator.validate", "Abstraction.calculate_type"]},
+ "C16": {"transforge/expr.py": ["Operation.__init__", "Operator.instance"], "transforge/type.py": ["TypeSchema.instance"],
+         "transforge/lang.py": ["Language.parse_type", "Language.parse_expr"]},
+ "C17": {"transforge/type.py": ["TypeVariable.bind", "TypeVariable.above", "TypeVariable.below", "TypeVariable.check_constraints",
+                                "EliminationConstraint.fulfill", "SubtypeConstraint.fulfill", "TypeInstance.text"],
+         "transforge/lang.py": ["Language.parse_expr", "Language.parse_type"]},
+ "C18": {"transforge/type.py": ["TypeVariable.check_constraints", "EliminationConstraint.fulfill", "EliminationConstraint.minimize",
+                                "SubtypeConstraint.fulfill"]},
+ "C20": {"transforge/bag.py": ["TypeUnion.add", "TypeUnion.is_subtype", "Bag.add"], "transforge/query.py": ["TransformationQuery.types"]},
+}
+
+
+class MultiCoverage:
+    """coverage.py over several modules of /repo for the anchored functions of one property."""
+
+    def __init__(self, spec: dict):
+        self.spec = spec
+        self.cov = None
+
+    def start(self):
+        try:
+            import coverage
+        except ImportError:
+            return
+        try:
+            self.cov = coverage.Coverage(include=[str(REPO / m) for m in self.spec], data_file=None)
+            self.cov.start()
+        except Exception:  # noqa: BLE001 - another tracer is active; coverage stays unmeasured
+            self.cov = None
+
+    def stop(self) -> dict:
+        if self.cov is None:
+            return {"available": False}
+        try:
+            self.cov.stop()
+        except Exception:  # noqa: BLE001
+            return {"available": False}
+        out = {"available": True, "functions": {}}
+        for mod, fns in self.spec.items():
+            lc = LineCoverage(mod, fns)
+            lc.cov = self.cov
+            lc._external = True
+            r = lc.stop()
+            if r.get("available"):
+                for k, v in r["functions"].items():
+                    out["functions"][f"{mod}:{k}"] = v
+        tot = sum(v["statements"] for v in out["functions"].values() if isinstance(v, dict))
+        ex = sum(v["executed"] for v in out["functions"].values() if isinstance(v, dict))
+        out["statements"] = tot
+        out["executed"] = ex
+        return out
+
+
 class LineCoverage:
     """Measures, with coverage.py, which lines of the named functions of one
     transforge module were executed between start() and stop().  Reported in
@@ -588,7 +670,8 @@ class LineCoverage:
         if self.cov is None:
             return {"available": False}
         import ast
-        self.cov.stop()
+        if not getattr(self, "_external", False):
+            self.cov.stop()
         try:
             _, statements, _, missing, _ = self.cov.analysis2(self.path)
         except Exception as e:  # noqa: BLE001
